@@ -27,12 +27,12 @@ type pvar struct {
 
 // ProgOpts selects language features.
 type ProgOpts struct {
-	Try       bool // try/catch/finally/throw
-	Macros    bool // defmacro, quasiquote, library macros
-	Faults    int  // percentage of programs with one injected fault
-	MaxDepth  int
-	Suffix    string // appended to every global name (C11: per-thread names)
-	GoErrors  bool   // harness builtins fail!/panic-err!/panic-val!
+	Try         bool // try/catch/finally/throw
+	Macros      bool // defmacro, quasiquote, library macros
+	Faults      int  // percentage of programs with one injected fault
+	MaxDepth    int
+	Suffix      string // appended to every global name (C11: per-thread names)
+	GoErrors    bool   // harness builtins fail!/panic-err!/panic-val!
 	NoLibMacros bool
 }
 
@@ -58,7 +58,7 @@ func NewPG(r *rand.Rand, o ProgOpts) *PG {
 	return &PG{r: r, o: o, marity: map[string]int{}, Stats: map[string]int{}}
 }
 
-func sy(s string) *canon.Node       { return canon.Sy(s) }
+func sy(s string) *canon.Node         { return canon.Sy(s) }
 func li(l ...*canon.Node) *canon.Node { return canon.Li(l...) }
 func call(f string, a ...*canon.Node) *canon.Node {
 	return canon.Li(append([]*canon.Node{canon.Sy(f)}, a...)...)
